@@ -19,7 +19,8 @@ RULE = ("environments = DIP text with 3-7 typed nodes (float/int with units of 7
         "operators of different priority, or a unit conversion, or a negation/definedness test, or a hole with slice or format; "
         "distinct = the rendered text together with the environment text")
 ASSUMPTIONS = [
-    "linear units only (no temperature/logarithmic units, no dimensionless base units such as rad or %); Quantity arithmetic "
+    "linear units only (no temperature/logarithmic units, no %); plane angles (deg, rad) are a dimension of their own that converts "
+    "to plain numbers in radians (sin/cos/tan, and the code lets a plain number be added to an angle - not judged); Quantity arithmetic "
     "itself is property C06 - here the numeric result in the requested unit is compared (rel. 1e-9 of the error scale of the tree)",
     "function arguments are dimensionless (except sqrt and the base of pow), exponents of pow() and ** are small integers",
     "a blank-delimited prefix sign (' - x') is generated at the start of an expression and after a binary operator, not as the first "
@@ -100,6 +101,7 @@ DIMS = {
     "L2": ["m2", "cm2"],
     "V": ["m/s", "km/h"],
     "E": ["J", "erg", "kg*m2/s2"],
+    "A": ["deg", "rad"],
 }
 NUMS = ["1", "2", "3", "0.5", "12.25", "7", "4e1", "1.5e-1", "250", "9.75", "57.3", "100", "0.02"]
 
@@ -160,6 +162,27 @@ def gen_env(rng, custom=None):
     sval = rng.choice(["ab", "hi", "Tina", "x1"])
     lines.append("s str = '%s'" % sval)
     nodes["s"] = ("str", sval, None, None)
+    # nodes are modified after their definition (other value, other unit): a reference delivers the current value
+    mods = []
+    for n in list(nodes):
+        kind, val, unit, dim = nodes[n]
+        if rng.random() < 0.45:
+            if kind == "float":
+                u2 = rng.choice(dims[dim])
+                v2 = rng.choice(NUMS)
+                lines.append("%s = %s%s" % (n, v2, " " + u2 if u2 else ""))
+                mods.append((n, float(v2), u2))
+            elif kind == "int":
+                v2 = rng.randint(1, 300)
+                lines.append("%s = %d%s" % (n, v2, " " + unit if unit else ""))
+                mods.append((n, v2, unit))
+            elif kind == "bool":
+                lines.append("%s = %s" % (n, "false" if val else "true"))
+                nodes[n] = (kind, not val, unit, dim)
+            elif kind == "str":
+                v2 = rng.choice(["ab", "hi", "Tina", "x1", "mod"])
+                lines.append("%s = '%s'" % (n, v2))
+                nodes[n] = (kind, v2, unit, dim)
     if rng.random() < 0.5:
         lines.append("grp")
         lines.append("  h float = 62.3 kg")
@@ -175,7 +198,13 @@ def gen_env(rng, custom=None):
         d.add_string(text)
         env = d.parse()
     allunits = sorted({u for us in dims.values() for u in us if u})
-    return Env(text, env, nodes, dims), unit_table(env, allunits)
+    table = unit_table(env, allunits)
+    kmap = {u: k for u, k, _ in table}
+    for n, v2, u2 in mods:
+        kind, val, unit, dim = nodes[n]
+        cur = v2 * (kmap[u2] / kmap[unit]) if (u2 and unit and u2 != unit) else v2
+        nodes[n] = (kind, cur, unit, dim)
+    return Env(text, env, nodes, dims), table
 
 
 def node_rows(E):
@@ -277,8 +306,8 @@ def gen_num_leaf(rng, E, dim):
 
 # (target, left, right) decompositions for * and /
 MUL = {"0": [("0", "0")], "L": [("L", "0"), ("0", "L"), ("V", "T")], "L2": [("L", "L"), ("L2", "0")], "M": [("M", "0"), ("0", "M")],
-       "T": [("T", "0")], "V": [("V", "0"), ("0", "V")], "E": [("E", "0"), ("0", "E")]}
-DIV = {"0": [("0", "0"), ("L", "L"), ("M", "M"), ("E", "E"), ("L2", "L2"), ("T", "T")], "L": [("L", "0"), ("L2", "L")], "L2": [("L2", "0")],
+       "T": [("T", "0")], "V": [("V", "0"), ("0", "V")], "E": [("E", "0"), ("0", "E")], "A": [("A", "0"), ("0", "A")]}
+DIV = {"0": [("0", "0"), ("L", "L"), ("M", "M"), ("E", "E"), ("L2", "L2"), ("T", "T"), ("A", "A")], "A": [("A", "0")], "L": [("L", "0"), ("L2", "L")], "L2": [("L2", "0")],
        "M": [("M", "0")], "T": [("T", "0"), ("L", "V")], "V": [("L", "T"), ("V", "0")], "E": [("E", "0")]}
 
 
@@ -312,9 +341,10 @@ def gen_num(rng, E, dim, depth, pos=False):
         if f == "exp":
             return ["fn1", f, ["bin", "truediv", gen_num(rng, E, "0", 0, True), ["lit", rng.choice(["10", "20", "50"])]]]
         if f == "tan":
-            return ["fn1", f, ["lit", rng.choice(["0.3", "0.5", "1", "-0.7"])]]
+            return ["fn1", f, ["lit", rng.choice(["0.3", "0.5", "1", "-0.7", "45 deg", "30 deg", "0.4 rad", "-20 deg"])]]
         if f in ("sin", "cos"):
-            return ["fn1", f, gen_num(rng, E, "0", depth - 2, pos)]
+            # the documented use: an angle (deg / rad, literal or node), or a plain number
+            return ["fn1", f, gen_num(rng, E, rng.choice(["A", "A", "0"]), depth - 2, pos)]
         if f in ("log", "log10", "sqrt"):
             return ["fn1", f, gen_num(rng, E, "0", depth - 2, True)]
         if f == "logb":
@@ -396,9 +426,14 @@ def num_stream(ctx, tabs, envs, count, corpus):
         E, units = rng.choice(envs)
         dim = rng.choice(list(DIMS))
         r = rng.random()
-        if r < 0.08:   # addition across dimensions: must be refused
-            d2 = rng.choice([d for d in DIMS if d != dim])
-            ast = ["bin", rng.choice(["add", "sub"]), gen_num(rng, E, dim, 1), gen_num(rng, E, d2, 1)]
+        if r < 0.08:   # addition across dimensions / a function of a dimensional argument: must be refused
+            d2 = rng.choice([d for d in DIMS if d != dim and {d, dim} != {"A", "0"}])
+            if rng.random() < 0.3:
+                dd = rng.choice([d for d in DIMS if d not in ("A", "0")])
+                ast = ["fn1", rng.choice(["sin", "cos", "tan"]), gen_num(rng, E, dd, 1, True)]
+                dim = "0"
+            else:
+                ast = ["bin", rng.choice(["add", "sub"]), gen_num(rng, E, dim, 1), gen_num(rng, E, d2, 1)]
             if rng.random() < 0.5:
                 ast = ["bin", "mul", ast, ["lit", "2"]]
             kind = "dimrefuse"
@@ -705,8 +740,16 @@ def dip_log_stream(ctx, tabs, envs, count):
 def tpl_value(E, ref, sl):
     """Specification of a hole: the referenced value, sliced as documented."""
     import numpy as np
-    node = E.env.nodes.query(ref.lstrip("?"))[0]
-    v = node.value.value
+    name = ref.lstrip("?")
+    if name in E.nodes and E.nodes[name][0] in ("float", "int", "str", "bool"):
+        v = E.nodes[name][1]          # the current value as the generator computed it (after modifications)
+        if E.nodes[name][0] == "float":
+            v = float(v)
+            real = E.env.nodes.query(name)[0].value.value
+            if isinstance(real, float) and close(real, v, None):
+                v = real              # same number up to the rounding of the unit conversion: same digits in str()
+    else:
+        v = E.env.nodes.query(name)[0].value.value
     if sl:
         if isinstance(v, str):
             (a, b), = sl
